@@ -116,7 +116,7 @@ func genX1Compare(g *G) {
 		g.Case(ops)
 	}
 	// extreme arguments (differences near the int64 limits stay representable)
-	ext := []int{0, 1, -1, math.MaxInt32, math.MinInt32, 1 << 61, -(1 << 61)}
+	ext := []int{0, 1, -1, math.MaxInt32, math.MinInt32, 1 << 60, -(1 << 60)} // 2*(a-b) of mode rr must stay below 2^63
 	ops := []string{"reset"}
 	for _, a := range ext {
 		for _, b := range ext {
